@@ -43,6 +43,17 @@ def run(repo: Repo, tier: str, res: CheckResult, seed: int = 0) -> None:
                             consequence="a retort derived with replace(debug_trail=...) keeps raising in the mode of the original (trails under DISABLE, a single untrailed error under ALL)")
     from .. import genprog
     genprog.c05_checks(repo, tier, res, seed)
+    # unknown keys under ExtraForbid are an independently invalid leaf: the forbid check may not depend on what else went wrong
+    # (audit of C03 over the same emitted programs, reported here as a completeness clause)
+    _sub3 = CheckResult("C03")
+    genprog.c03_loader_checks(repo, tier, _sub3, seed, prop="C03")
+    res.evaluated("generated:forbid-check-unconditional", True)
+    for _f in _sub3.findings:
+        if _f.rule in ("TV.forbid-check-conditional", "TV.forbid-rejection-guard"):
+            res.add(Finding("C05", "ALL.generated-unknown-keys-not-reported", _f.file, _f.qualname, _f.construct,
+                            "the check that reports unknown keys (ExtraFieldsLoadError) is skipped under a condition: with "
+                            "DebugTrail.ALL a datum that has an unknown key AND another fault loses one of its independently invalid "
+                            "leaves. " + _f.message[:200], _f.line))
     # an exception that is not a LoadError and escapes from a generated loader carries no trail, and under ALL it discards
     # every error collected so far -- none of the invalid leaves is reported (escape analysis of C04 over the same programs)
     from ..esc import Esc
